@@ -68,16 +68,16 @@ theorem readUntilInput_exact (input stream : Bytes) (hI : squish input ≠ [])
 /-- **one command, framed exactly**: `sendInput_frames` (C01Lemmas) restated. -/
 theorem send_input_exact {P : Bytes → Bool} {cfg : Cfg} {dv : LineDev} (hf : Fits P cfg dv)
     (input : Bytes) (hg : GoodCmd P dv input) (stripPrompt : Bool)
-    (w : Wire) (hres : ∀ x ∈ w.avail, isHws x = true) :
+    (w : Wire) (hres : ∀ x ∈ w.avail, isHws x = true) (hheld : w.held = []) :
     ∃ raw w', sendInput cfg dv.onWrite input stripPrompt false false (w, []) =
         some ((raw, expected cfg dv stripPrompt input), (w', [])) ∧
       (∃ L t', (∀ x ∈ L, isWs x = true) ∧ t' <+: dv.trail ∧
         raw = L ++ dv.rbody input ++ NL :: dv.prompt ++ t') ∧
-      w'.writes = w.writes ++ [input, [NL]] ∧ (∀ x ∈ w'.avail, isHws x = true) := by
-  obtain ⟨L, t', t'', cuts', hLws, hLnl, htt, hsend⟩ := sendInput_frames hf input hg stripPrompt w hres
+      w'.writes = w.writes ++ [input, [NL]] ∧ (∀ x ∈ w'.avail, isHws x = true) ∧ w'.held = [] := by
+  obtain ⟨L, t', t'', cuts', hLws, hLnl, htt, hsend⟩ := sendInput_frames hf input hg stripPrompt w hres hheld
   obtain ⟨ht', ht''⟩ := suffix_hws htt hf.trail_hws
   refine ⟨_, { avail := t'', cuts := cuts', writes := w.writes ++ [input, [NL]] }, ?_,
-    ⟨L, t', hLws, ⟨t'', htt⟩, rfl⟩, rfl, ht''⟩
+    ⟨L, t', hLws, ⟨t'', htt⟩, rfl⟩, rfl, ht'', rfl⟩
   rw [hsend]
   unfold expected
   rw [processOutput_indep cfg dv input L t' stripPrompt hLws hLnl ht' hf.prompt_ne hf.prompt_nl]
@@ -88,12 +88,12 @@ theorem send_input_exact {P : Bytes → Bool} {cfg : Cfg} {dv : LineDev} (hf : F
     step afterwards (only trailing blanks unread). -/
 theorem session_exact {P : Bytes → Bool} {cfg : Cfg} {dv : LineDev} (hf : Fits P cfg dv)
     (stripPrompt : Bool) (inputs : List Bytes) (hg : ∀ i ∈ inputs, GoodCmd P dv i)
-    (w : Wire) (hw : ∀ x ∈ w.avail, isHws x = true) :
+    (w : Wire) (hw : ∀ x ∈ w.avail, isHws x = true) (hheld : w.held = []) :
     ∃ rs w', runCmds cfg dv.onWrite stripPrompt inputs (w, []) = some (rs, (w', [])) ∧
       rs.map (·.2) = inputs.map (expected cfg dv stripPrompt) ∧
       w'.writes = w.writes ++ (inputs.map (fun i => [i, [NL]])).flatten ∧
-      (∀ x ∈ w'.avail, isHws x = true) :=
-  session_in_step hf stripPrompt inputs hg w hw
+      (∀ x ∈ w'.avail, isHws x = true) ∧ w'.held = [] :=
+  session_in_step hf stripPrompt inputs hg w hw hheld
 
 /-- **get_prompt, exact for every segmentation** (`getPrompt_exact`): one return is written, the
     device's prompt is returned, only blanks stay unread.  `hfirst` is the hypothesis on `group(0)`:
@@ -102,22 +102,23 @@ theorem session_exact {P : Bytes → Bool} {cfg : Cfg} {dv : LineDev} (hf : Fits
 theorem get_prompt_exact {P : Bytes → Bool} {cfg : Cfg} {dv : LineDev} (hf : Fits P cfg dv)
     (hfirst : ∀ x L, (splitNL x).find? P = some L →
       ∃ m, cfg.prompt.first x = some m ∧ strip m = strip L)
-    (hout : dv.out [] = []) (w : Wire) (hres : ∀ x ∈ w.avail, isHws x = true) :
+    (hout : dv.out [] = []) (w : Wire) (hres : ∀ x ∈ w.avail, isHws x = true) (hheld : w.held = []) :
     ∃ w', getPrompt cfg dv.onWrite (w, []) = some (strip dv.prompt, (w', [])) ∧
-      w'.writes = w.writes ++ [[NL]] ∧ (∀ x ∈ w'.avail, isHws x = true) :=
-  getPrompt_exact hf hfirst hout w hres
+      w'.writes = w.writes ++ [[NL]] ∧ (∀ x ∈ w'.avail, isHws x = true) ∧ w'.held = [] :=
+  getPrompt_exact hf hfirst hout w hres hheld
 
 /-- **C01, sessions mixing get_prompt and commands in any order** -/
 theorem mixed_session_exact {P : Bytes → Bool} {cfg : Cfg} {dv : LineDev} (hf : Fits P cfg dv)
     (hfirst : ∀ x L, (splitNL x).find? P = some L →
       ∃ m, cfg.prompt.first x = some m ∧ strip m = strip L)
     (hout : dv.out [] = []) (stripPrompt : Bool) (ops : List COp)
-    (hg : ∀ i, COp.cmd i ∈ ops → GoodCmd P dv i) (w : Wire) (hw : ∀ x ∈ w.avail, isHws x = true) :
+    (hg : ∀ i, COp.cmd i ∈ ops → GoodCmd P dv i) (w : Wire) (hw : ∀ x ∈ w.avail, isHws x = true)
+    (hheld : w.held = []) :
     ∃ rs w', runOps cfg dv.onWrite stripPrompt ops (w, []) = some (rs, (w', [])) ∧
       rs = ops.map (expectedOp cfg dv stripPrompt) ∧
       w'.writes = w.writes ++ (ops.map opWrites).flatten ∧
-      (∀ x ∈ w'.avail, isHws x = true) :=
-  mixed_session_in_step hf hfirst hout stripPrompt ops hg w hw
+      (∀ x ∈ w'.avail, isHws x = true) ∧ w'.held = [] :=
+  mixed_session_in_step hf hfirst hout stripPrompt ops hg w hw hheld
 
 /-- **the result is the device's text, trimmed** (strip_prompt off): what every command of a session
     returns (`expected`) is the response `rbody ++ NL :: prompt` with every line right-trimmed and the
@@ -157,16 +158,17 @@ example : normalizeText [10, 10, 97, 32, 32, 10, 10, 98, 9, 10, 32, 10] = [97, 1
 theorem interact_exact {cfg : Cfg} {complete : List Bytes} (hstrict : cfg.rough = false)
     (hret : cfg.ret = [NL]) (ps : List (Ev × Step)) (extra : List Step)
     (hg : ∀ p ∈ ps, ∃ Pr Pc, GoodStep cfg complete Pr Pc p.1 p.2)
-    (w : Wire) (hres : ∀ x ∈ w.avail, isHws x = true) :
+    (w : Wire) (hres : ∀ x ∈ w.avail, isHws x = true) (hheld : w.held = []) :
     ∃ raw w', sendInputsInteract cfg scriptDev (ps.map (·.1)) complete (w, ps.map (·.2) ++ extra) =
         some ((raw, processOutput cfg (raw.dropWhile isWs) false),
               (w', (ps.drop (consumed complete ps).length).map (·.2) ++ extra)) ∧
       raw ++ w'.avail = w.avail ++ ((consumed complete ps).map (fun p => stepText p.1 p.2)).flatten ∧
       (∀ x ∈ w'.avail, isHws x = true) ∧
       (∀ p, (consumed complete ps).getLast? = some p → w'.avail <:+ p.2.t) ∧
-      w'.writes = w.writes ++ ((consumed complete ps).map (fun p => [p.1.1, [NL]])).flatten := by
-  obtain ⟨raw, w', h1, h2, h3, h4, h5⟩ := interactLoop_frames hstrict hret ps extra [] w hg hres
-  refine ⟨raw, w', ?_, by simpa using h2, h3, h4, h5⟩
+      w'.writes = w.writes ++ ((consumed complete ps).map (fun p => [p.1.1, [NL]])).flatten ∧
+      w'.held = [] := by
+  obtain ⟨raw, w', h1, h2, h3, h4, h5, h6⟩ := interactLoop_frames hstrict hret ps extra [] w hg hres hheld
+  refine ⟨raw, w', ?_, by simpa using h2, h3, h4, h5, h6⟩
   unfold sendInputsInteract
   rw [h1]
 
@@ -178,11 +180,11 @@ theorem interact_exact {cfg : Cfg} {complete : List Bytes} (hstrict : cfg.rough 
 theorem interact_result_normalized {cfg : Cfg} {complete : List Bytes} (hstrict : cfg.rough = false)
     (hret : cfg.ret = [NL]) (ps : List (Ev × Step)) (extra : List Step)
     (hg : ∀ p ∈ ps, ∃ Pr Pc, GoodStep cfg complete Pr Pc p.1 p.2)
-    (w : Wire) (hres : ∀ x ∈ w.avail, isHws x = true) :
+    (w : Wire) (hres : ∀ x ∈ w.avail, isHws x = true) (hheld : w.held = []) :
     ∃ raw s', sendInputsInteract cfg scriptDev (ps.map (·.1)) complete (w, ps.map (·.2) ++ extra) =
         some ((raw, normalizeText
           (((consumed complete ps).map (fun p => stepText p.1 p.2)).flatten.dropWhile isWs)), s') := by
-  obtain ⟨raw, w', h1, h2, h3, _, _⟩ := interact_exact hstrict hret ps extra hg w hres
+  obtain ⟨raw, w', h1, h2, h3, _, _, _⟩ := interact_exact hstrict hret ps extra hg w hres hheld
   suffices heq : processOutput cfg (raw.dropWhile isWs) false = normalizeText
       (((consumed complete ps).map (fun p => stepText p.1 p.2)).flatten.dropWhile isWs) from
     ⟨raw, _, by rw [h1, heq]⟩
@@ -264,8 +266,8 @@ example (cuts : List Nat) :
     ∃ rs w', runCmds exCfg exDev.onWrite true [exCmd, exCmd, exCmd] ({ avail := [32], cuts := cuts }, []) =
         some (rs, (w', [])) ∧
       rs.map (·.2) = [exCmd, exCmd, exCmd].map (expected exCfg exDev true) :=
-  let ⟨rs, w', h1, h2, _, _⟩ := session_exact exFits true [exCmd, exCmd, exCmd]
-    (by intro i hi; simp at hi; subst hi; exact exGood) { avail := [32], cuts := cuts } (by intro x hx; simp at hx; subst hx; decide)
+  let ⟨rs, w', h1, h2, _, _, _⟩ := session_exact exFits true [exCmd, exCmd, exCmd]
+    (by intro i hi; simp at hi; subst hi; exact exGood) { avail := [32], cuts := cuts } (by intro x hx; simp at hx; subst hx; decide) rfl
   ⟨rs, w', h1, h2⟩
 
 /-! ### non-vacuity of the interactive theorems: `enable` / `Password:` / prompt -/
@@ -424,7 +426,7 @@ example (cuts : List Nat) :
       rcases hp with e | e <;> subst e
       · exact ⟨_, _, ixGood1⟩
       · exact ⟨_, _, ixGood2⟩)
-    { avail := [32], cuts := cuts } (by intro x hx; simp at hx; subst hx; decide)
+    { avail := [32], cuts := cuts } (by intro x hx; simp at hx; subst hx; decide) rfl
   have hv : normalizeText (((consumed ixComplete [(ixEv1, ixSt1), (ixEv2, ixSt2)]).map
       (fun p => stepText p.1 p.2)).flatten.dropWhile isWs) =
       [101, 110, 97, 98, 108, 101, 10, 80, 97, 115, 115, 119, 111, 114, 100, 58, 10, 114, 49, 35] := by decide
@@ -438,7 +440,7 @@ example (cuts : List Nat) :
         ({ cuts := cuts }, [ixSt1b, ixSt2]) =
       some ((raw, processOutput ixCfg (raw.dropWhile isWs) false), (w', [ixSt2])) ∧
       w'.writes = [[101, 110, 97, 98, 108, 101], [NL]] := by
-  obtain ⟨raw, w', h1, _, _, _, h5⟩ := interact_exact (cfg := ixCfg) (complete := ixComplete) rfl rfl
+  obtain ⟨raw, w', h1, _, _, _, h5, _⟩ := interact_exact (cfg := ixCfg) (complete := ixComplete) rfl rfl
     [(ixEv1, ixSt1b), (ixEv2, ixSt2)] []
     (by
       intro p hp
@@ -446,7 +448,7 @@ example (cuts : List Nat) :
       rcases hp with e | e <;> subst e
       · exact ⟨_, _, ixGood1b⟩
       · exact ⟨_, _, ixGood2⟩)
-    { cuts := cuts } (by simp)
+    { cuts := cuts } (by simp) rfl
   exact ⟨raw, w', by simpa [consumed, Step.ends, ixSt1b, ixComplete] using h1,
     by simpa [consumed, Step.ends, ixSt1b, ixComplete, ixEv1] using h5⟩
 
